@@ -25,21 +25,23 @@ def scenario(name, base, ports, seed, **over):
     return sc
 
 
-def execute_core(sc, workdir, prop, monitors):
+def execute_core(sc, workdir, prop, monitors, tags=None):
     """Run the scenario, validate, return the runner's result dict restricted to clauses of `prop`."""
     r = core.run_core(sc, monitors=monitors)
     tf = os.path.join(workdir, "trace.ndjson")
     tlc.write_ndjson(tf, r["header"], r["events"])
     v = tlc.validate_trace("T_Core", tf, workdir)
-    mine = [b[1:] for b in v["bad"] if b[1] == prop]          # drop the line number: [prop, clause, ...]
-    lines = [b[0] for b in v["bad"] if b[1] == prop]
+    tags = set(tags or [prop])
+    mine = [[prop] + b[2:] for b in v["bad"] if b[1] in tags]   # drop the line number: [prop, clause, ...]
+    lines = [b[0] for b in v["bad"] if b[1] in tags]
     hint = None
     if lines and not sc.get("confirm_hint"):
         # event on trace line n is events[n-2] (line 1 = header); stop the confirmation run a little after it
         hint = r["events"][min(lines) - 2].get("t", 0) // r["header"]["nphases"] + 64
-    others = sorted({(b[1], b[2]) for b in v["bad"] if b[1] != prop})
-    if r["timed_out"]:
-        raise RuntimeError("simulation hit max_cycles (%s)" % sc["name"])
+    others = sorted({(b[1], b[2]) for b in v["bad"] if b[1] not in tags})
+    if r["timed_out"] and not v["bad"]:
+        # a run that does not terminate must be explained by some rejected clause (lost strobe, starvation, ...)
+        raise RuntimeError("simulation hit max_cycles without any rejected clause (%s)" % sc["name"])
     kinds = r["kinds"]
     sample = dict(cycles=r["cycles"], events=len(r["events"]), kinds=kinds, info=v["info"],
                   first_events=r["events"][:6], other_property_clauses=[list(x) for x in others][:10])
